@@ -238,7 +238,7 @@ def structural(tier, res):
     def add(q, allowed, extra_fresh=()):
         fi = find_function(q)
         res.functions[q] = fi.describe()
-        out.extend(frames.check_assigns(fi, set(allowed), fresh | set(extra_fresh)))
+        out.extend(frames.check_assigns(fi, set(allowed), fresh | set(extra_fresh), proof_state=('_regex_cache', '_expression_cache')))
     eng = ME + 'MerchantEngine.'
     for m in ('_evaluate_variables', '_evaluate_let_bindings', '_evaluate_fields', '_resolve_tags', 'match'):
         add(eng + m, [])
